@@ -20,29 +20,66 @@
    side = "fw"  : nothing is known about the input before the first sample -> the first sample never clicks.
    side = "host": the documented Python class starts "released" (_was_pressed = False), so a signal whose first
                   sample is 1 clicks at once; C15 only claims equal click counts when the signal starts released. *)
-EXTENDS Integers, Sequences, TLC
+EXTENDS Integers, Sequences, FiniteSets, TLC
 
-CONSTANTS MaxPasses, MaxReads
-VARIABLES side, handler, phase, pass, prev, value, clicks, owed, sampledThisPass, first,   \* the button
-          sig, reads, hostWas, hostClicks                                         \* history / reference shadow
+CONSTANTS
+    \* @type: Int;
+    MaxPasses,
+    \* @type: Int;
+    MaxReads
+VARIABLES                                  \* the button
+    \* @type: Str;
+    side,
+    \* @type: Bool;
+    handler,
+    \* @type: Str;
+    phase,
+    \* @type: Int;
+    pass,
+    \* @type: Int;
+    prev,
+    \* @type: Int;
+    value,
+    \* @type: Int;
+    clicks,
+    \* @type: Int;
+    owed,
+    \* @type: Int;
+    sampledThisPass,
+    \* @type: Int;
+    first,
+    \* @type: Seq(Int);
+    sig,                                   \* history / reference shadow
+    \* @type: Seq(Int);
+    reads,
+    \* @type: Int;
+    hostWas,
+    \* @type: Int;
+    hostClicks
 bvars == <<side, handler, phase, pass, prev, value, clicks, owed, sampledThisPass, first>>
 vars == <<bvars, sig, reads, hostWas, hostClicks>>
 
 None == 2                       \* "no sample yet"
+\* @type: (Str, Int) => { k: Str, v: Int, h: Int };
 Ev(k, v) == [k |-> k, v |-> v, h |-> 0]
 
 Rec == [side |-> side, handler |-> handler, phase |-> phase, pass |-> pass, prev |-> prev, value |-> value, clicks |-> clicks,
         owed |-> owed, sampled |-> sampledThisPass, first |-> first]
+\* @type: (Str, Bool) => { side: Str, handler: Bool, phase: Str, pass: Int, prev: Int, value: Int, clicks: Int, owed: Int, sampled: Int, first: Int };
 InitRec(sd, hd) == [side |-> sd, handler |-> hd, phase |-> "setup", pass |-> 0, prev |-> None, value |-> IF sd = "host" THEN 0 ELSE None,
                 clicks |-> 0, owed |-> 0, sampled |-> 0, first |-> None]
+\* @type: ({ side: Str, handler: Bool, phase: Str, pass: Int, prev: Int, value: Int, clicks: Int, owed: Int, sampled: Int, first: Int }) => Bool;
 SetRec(r) == /\ side' = r.side /\ handler' = r.handler /\ phase' = r.phase /\ pass' = r.pass /\ prev' = r.prev /\ value' = r.value
              /\ clicks' = r.clicks /\ owed' = r.owed /\ sampledThisPass' = r.sampled /\ first' = r.first
 
 -----------------------------------------------------------------------------
 (* The step relation. *)
+\* @type: ({ side: Str, handler: Bool, phase: Str, pass: Int, prev: Int, value: Int, clicks: Int, owed: Int, sampled: Int, first: Int }, Int) => Bool;
 Rising(s, v) == s.phase = "loop" /\ s.value = 0 /\ v = 1       \* released -> pressed, seen by a loop() pass
+\* @type: ({ side: Str, handler: Bool, phase: Str, pass: Int, prev: Int, value: Int, clicks: Int, owed: Int, sampled: Int, first: Int }, Int) => Bool;
 Owes(s, v) == s.handler /\ Rising(s, v)                         \* ... and there is an on_click handler to run
 
+\* @type: ({ side: Str, handler: Bool, phase: Str, pass: Int, prev: Int, value: Int, clicks: Int, owed: Int, sampled: Int, first: Int }, { k: Str, v: Int, h: Int }) => { side: Str, handler: Bool, phase: Str, pass: Int, prev: Int, value: Int, clicks: Int, owed: Int, sampled: Int, first: Int };
 Apply(s, e) ==
     CASE e.k = "pass"   -> [s EXCEPT !.phase = "loop", !.pass = @ + 1, !.sampled = 0]
       [] e.k = "sample" -> [s EXCEPT !.prev = s.value, !.value = e.v, !.sampled = @ + 1,
@@ -51,6 +88,7 @@ Apply(s, e) ==
       [] e.k = "click"  -> [s EXCEPT !.clicks = @ + 1, !.owed = 0]
       [] OTHER -> s
 
+\* @type: ({ side: Str, handler: Bool, phase: Str, pass: Int, prev: Int, value: Int, clicks: Int, owed: Int, sampled: Int, first: Int }) => Str;
 ClickClause(s) ==            \* why a handler run that is not owed is wrong
     IF s.phase = "setup" \/ s.value = None \/ (s.prev = None /\ s.side = "fw") THEN "click-at-startup"
     ELSE IF s.value = 1 /\ s.prev = 1 THEN "click-while-held"
@@ -58,6 +96,7 @@ ClickClause(s) ==            \* why a handler run that is not owed is wrong
     ELSE IF s.value = 0 THEN "click-while-released"
     ELSE "duplicate-click"
 
+\* @type: ({ side: Str, handler: Bool, phase: Str, pass: Int, prev: Int, value: Int, clicks: Int, owed: Int, sampled: Int, first: Int }, { k: Str, v: Int, h: Int }) => Str;
 Diff(s, e) ==
     CASE e.k = "setup"  -> IF s.pass = 0 /\ s.value = None /\ s.clicks = 0 THEN "" ELSE "setup-not-first"
       [] e.k = "pass"   -> IF s.owed = 1 THEN "missed-click"
@@ -73,7 +112,9 @@ Diff(s, e) ==
                            ELSE IF s.handler /\ e.v >= 0 /\ s.first = 0 /\ s.clicks # e.v THEN "host-click-count" ELSE ""
       [] OTHER -> "unknown-event"
 
+\* @type: ({ side: Str, handler: Bool, phase: Str, pass: Int, prev: Int, value: Int, clicks: Int, owed: Int, sampled: Int, first: Int }, { k: Str, v: Int, h: Int }, { side: Str, handler: Bool, phase: Str, pass: Int, prev: Int, value: Int, clicks: Int, owed: Int, sampled: Int, first: Int }) => Bool;
 Step(s, e, t) == Diff(s, e) = "" /\ t = Apply(s, e)
+\* @type: ({ side: Str, handler: Bool, phase: Str, pass: Int, prev: Int, value: Int, clicks: Int, owed: Int, sampled: Int, first: Int }, { k: Str, v: Int, h: Int }, { side: Str, handler: Bool, phase: Str, pass: Int, prev: Int, value: Int, clicks: Int, owed: Int, sampled: Int, first: Int }) => Str;
 StepDiff(s, e, t) == IF Diff(s, e) # "" THEN Diff(s, e) ELSE IF t # Apply(s, e) THEN "state" ELSE ""
 
 (* Known deviations of the pinned tree, matched exactly (see known/C15.json).
@@ -81,8 +122,10 @@ StepDiff(s, e, t) == IF Diff(s, e) # "" THEN Diff(s, e) ELSE IF t # Apply(s, e) 
       handler runs before B is sampled in that pass and sees the previous pass's sample.
    2. a Button constructed inside the main loop body (decl = "loop") has no sample before the first pass, yet its
       edge detector starts from "released": a button held at power-up clicks in pass 1. *)
+\* @type: ({ side: Str, handler: Bool, phase: Str, pass: Int, prev: Int, value: Int, clicks: Int, owed: Int, sampled: Int, first: Int }, { k: Str, v: Int, h: Int }) => Bool;
 KnownStaleReadInHandler(s, e) ==
     e.k = "read" /\ e.h = 1 /\ s.phase = "loop" /\ s.sampled = 0 /\ s.value # None /\ e.v = s.value
+\* @type: ({ side: Str, handler: Bool, phase: Str, pass: Int, prev: Int, value: Int, clicks: Int, owed: Int, sampled: Int, first: Int }, { k: Str, v: Int, h: Int }, Str) => Bool;
 KnownLoopDeclStartupClick(s, e, decl) ==
     decl = "loop" /\ e.k = "click" /\ s.owed = 0 /\ s.side = "fw" /\ s.phase = "loop" /\ s.pass = 1
     /\ s.prev = None /\ s.value = 1 /\ s.clicks = 0
@@ -93,6 +136,7 @@ Init == /\ side \in {"fw", "host"} /\ handler \in BOOLEAN /\ phase = "setup" /\ 
         /\ value = (IF side = "host" THEN 0 ELSE None) /\ clicks = 0 /\ owed = 0 /\ sampledThisPass = 0 /\ first = None
         /\ sig = <<>> /\ reads = <<>> /\ hostWas = 0 /\ hostClicks = 0
 
+\* @type: ({ k: Str, v: Int, h: Int }) => Bool;
 Do(e) == Diff(Rec, e) = "" /\ SetRec(Apply(Rec, e))
 
 Boot(s) ==       \* the firmware samples once in setup(): that sample can never click
@@ -116,8 +160,8 @@ Spec == Init /\ [][Next]_vars
 
 -----------------------------------------------------------------------------
 (* The properties C15 names. *)
-RECURSIVE RisingEdges(_, _)
-RisingEdges(q, i) == IF i > Len(q) THEN 0 ELSE (IF q[i - 1] = 0 /\ q[i] = 1 THEN 1 ELSE 0) + RisingEdges(q, i + 1)
+\* @type: (Seq(Int), Int) => Int;
+RisingEdges(q, i) == Cardinality({j \in DOMAIN q : j >= i /\ q[j - 1] = 0 /\ q[j] = 1})     \* rising edges of q at positions >= i (i >= 2)
 Signal == IF side = "host" THEN <<0>> \o sig ELSE sig       \* the host class starts from "released"
 
 TypeOK == /\ side \in {"fw", "host"} /\ phase \in {"setup", "loop"} /\ prev \in 0..2 /\ value \in 0..2
